@@ -22,8 +22,16 @@ THEOREMS = ["LNN.C10_addg_perm",
             "LNN.C10_fUpConn_congr",
             "LNN.C10_fUpNot_congr",
             "LNN.C10_fDownNot_congr",
-            "LNN.C10_perm_TEq"]
-MODULES = ["LnnVerif.Props.C10"]
+            "LNN.C10_perm_TEq",
+            # whole runs (Lemmas/FolCongr.lean)
+            "LNN.C10_fDownConn_congr",
+            "LNN.C10_writeMerged_congr",
+            "LNN.C10_fUpQuant_congr",
+            "LNN.C10_fDownQuant_congr",
+            "LNN.C10_runFCalls_congr",
+            "LNN.C10_fInfer_congr",
+            "LNN.C10_quant_needs_nodup"]
+MODULES = ["LnnVerif.Props.C10", "LnnVerif.Props.C10Run"]
 
 
 def run_seed(args):
